@@ -65,6 +65,9 @@ func opKind(name string) string {
 			if j := strings.Index(k, "-cancel-after-"); j >= 0 {
 				return "cancelled:" + k[:j]
 			}
+			if j := strings.Index(k, "<-n"); j >= 0 {
+				return k[:j] // sync<-n0, sync<-n1: one kind
+			}
 			return k
 		}
 	}
